@@ -351,8 +351,10 @@ macro_rules! configure_parser {
         }
     };
     (@extend_expect yes, $p:ident, $spec:ident, $arena:ident, $notes:ident, $ok:ident) => {
-        let mut m: HashMap<String, Box<dyn erased_serde::Serialize>> = HashMap::new();
+        // one single-entry map per expectation, in the order given: a multi-entry std HashMap would be
+        // iterated in RandomState order by the library and make the run irreproducible
         for c in &$spec.expect {
+            let mut m: HashMap<String, Box<dyn erased_serde::Serialize>> = HashMap::new();
             match CustomClaim::try_from((c.key().to_string(), c.value())) {
                 Ok(cc) => {
                     m.insert(c.key().to_string(), Box::new(cc));
@@ -364,8 +366,8 @@ macro_rules! configure_parser {
                     m.insert(c.key().to_string(), Box::new(one));
                 }
             }
+            $p.extend_check_claims(m);
         }
-        $p.extend_check_claims(m);
     };
     (@extend_expect no, $p:ident, $spec:ident, $arena:ident, $notes:ident, $ok:ident) => {
         $notes.push("extend_check_claims is GenericParser-only".into());
@@ -660,11 +662,12 @@ macro_rules! builder_impl {
                 let b = &mut self.0;
                 match op {
                     BOp::ExtendClaims(m) => {
-                        let mut hm: HashMap<String, Box<dyn erased_serde::Serialize>> = HashMap::new();
+                        // single-entry maps in key order (see @extend_expect)
                         for (k, v) in m {
+                            let mut hm: HashMap<String, Box<dyn erased_serde::Serialize>> = HashMap::new();
                             hm.insert(k.clone(), Box::new(v.clone()));
+                            b.extend_claims(hm);
                         }
-                        b.extend_claims(hm);
                         true
                     }
                     BOp::SetClaim(c) => apply_claim!(b, set_claim, c, arena),
